@@ -6,6 +6,7 @@ import (
 	"math/big"
 	"sort"
 	"strings"
+	"time"
 )
 
 func init() { propChecks["C12"] = checkC12 }
@@ -114,6 +115,18 @@ func rowMapString(m map[string][]*big.Rat) string {
 	return s
 }
 
+// c12DateFormat: when set, the histories are written, and the commands run, under this date format
+var c12DateFormat string
+
+// c12Redate rewrites a date of the default format into format f (anything else is returned as it is)
+func c12Redate(s, f string) string {
+	t, err := time.Parse("2006/01/02", s)
+	if err != nil {
+		return s
+	}
+	return t.Format(f)
+}
+
 func checkC12(w *Worker) {
 	w.appInit()
 	depth, freshDepth := 4, 2
@@ -159,10 +172,20 @@ func checkC12(w *Worker) {
 				return s
 			}
 			run := func(cmd []string, h []int) AppRun {
-				key := fmt.Sprint(bi, cmd, h)
+				key := fmt.Sprint(bi, cmd, h, c12DateFormat)
 				rc := appCase{Args: append([]string{"--no-color"}, cmd...), Files: map[string]string{"food.yaml": bookText, "log.yaml": text(h)}}
+				if c12DateFormat != "" {
+					// the same history written and read under another date format (dates among the arguments too)
+					rc.Args = []string{"--no-color", "--date-format", c12DateFormat}
+					for _, a := range cmd {
+						rc.Args = append(rc.Args, c12Redate(a, c12DateFormat))
+					}
+				}
 				if cmd[0] == "(colour)" {
 					rc.Args = append([]string{}, cmd[1:]...)
+					if c12DateFormat != "" {
+						rc.Args = append([]string{"--date-format", c12DateFormat}, cmd[1:]...)
+					}
 				}
 				if r, ok := cache[key]; ok {
 					logRun(rc, r)
@@ -276,4 +299,21 @@ func checkC12(w *Worker) {
 	pick = pickBlocks
 	w.Explore("append-histories-one-process-per-run", ExploreOpts{ShardDepth: 3}, body(true, freshDepth))
 	w.Explore("append-histories", ExploreOpts{ShardDepth: 4}, body(false, depth))
+	// the same under date formats whose headings contain blanks, month names, no leading zeros (a heading is whatever
+	// starts in the first column and ends in a colon - whatever it looks like)
+	for _, f := range []string{"02 Jan 2006", "Jan 2 2006", "2.1.2006", "2006-01-02"} {
+		c12DateFormat = f
+		texts := make([]string, len(c12Blocks))
+		for i, b := range c12Blocks {
+			b.Date = c12Redate(b.Date, f)
+			texts[i] = renderLog(absLog{b})
+		}
+		pick = func(x *Exec, depth int) c12Pick {
+			pk := pickBlocks(x, depth)
+			pk.blockText = texts
+			return pk
+		}
+		w.Explore("append-histories-date-format-"+strings.ReplaceAll(f, " ", "_"), ExploreOpts{ShardDepth: 3}, body(false, 3))
+	}
+	c12DateFormat = ""
 }
